@@ -104,6 +104,8 @@ def argv_of(o, model_args):
         argv += ['--make-variables', o['mv']]
     if o.get('indent') is not None:
         argv += ['--indent=' + o['indent']]
+    if o.get('v'):
+        argv.append(o['v'])            # verbosity never changes what is written to stdout
     return argv + ['--encoding', 'utf-8']
 
 
@@ -125,11 +127,19 @@ def _model_args(spec, d):
     return ['--model', p]
 
 
-def _run(argv, texts, use_stdin, d, prefix='in'):
+def _run(argv, texts, use_stdin, d, prefix='in', dup=None):
+    """dup = (k, style): texts[-1] is texts[k] again and is NOT written to a file of its own: the path of file k is given a
+    second time (verbatim, or spelled through "./")"""
     stdin = ''
     argv = list(argv)
     if use_stdin:
         stdin = texts[0]
+    elif dup is not None:
+        paths = cli.write_inputs(d, texts[:-1], prefix)
+        again = paths[dup[0]]
+        if dup[1]:
+            again = os.path.join(os.path.dirname(again), '.', os.path.basename(again))
+        argv += paths + [again]
     else:
         argv += cli.write_inputs(d, texts, prefix)
     try:
@@ -185,8 +195,17 @@ def check(case):
     use_stdin = bool(case.get('stdin')) and len(texts) == 1
     if use_stdin is False and not texts:
         return []
+    dup = None
+    sources = list(case['sources'])
+    if case.get('dup') is not None and not use_stdin:
+        # the same FILE named twice on the command line: its graphs are processed (and written) twice
+        k = case['dup'][0] % len(texts)
+        dup = (k, case['dup'][1])
+        texts = texts + [texts[k]]
+        sources = sources + [sources[k]]
+        ngraphs += len(sources[k])
     argv0 = argv_of(o, _model_args(spec, d))
-    got, argv, stdin = _run(argv0, texts, use_stdin, d)
+    got, argv, stdin = _run(argv0, texts, use_stdin, d, dup=dup)
     lab = 'penman %s <- %s' % (' '.join(os.path.basename(a) if a.startswith(d) else a for a in argv), short(texts, 300))
     f = []
     try:
@@ -223,7 +242,7 @@ def check(case):
         alt = dict(o)
         alt['indent'] = case['alt_indent']
         alt['compact'] = not o.get('compact')
-        got2, _, _ = _run(argv_of(alt, _model_args(spec, d)), texts, use_stdin, d)
+        got2, _, _ = _run(argv_of(alt, _model_args(spec, d)), texts, use_stdin, d, dup=dup)
         if got2[0] == 'ok':
             gs2 = penman.loads(got2[2], model=m)
             if [_gsig(g) for g in gs2] != [_gsig(g) for g in gs]:
@@ -244,7 +263,7 @@ def check(case):
         # no normalisation options: output decodes to the input graphs
         if not any(o.get(k) for k, _ in NORM_FLAGS) and not o.get('reconf') and not o.get('rearr') and not o.get('mv') and not o.get('check'):
             k = 0
-            for src in case['sources']:
+            for src in sources:
                 for gspec in src:
                     g0 = layout.interpret(Tree(interp.to_node(gspec['tree']), metadata=dict(gspec.get('meta') or {})), m)
                     dd = graphm.content_diff(g0.triples, g0.top, gs[k].triples, gs[k].top, spec, explicit_top_a=g0.top)
@@ -277,9 +296,11 @@ def nontrivial(case):
 def classes(case):
     o = case['opts']
     out = ['model:' + case['model'].get('name', 'custom'), 'sources:%d' % len(case['sources']), 'stdin' if case.get('stdin') else 'files']
+    if case.get('dup') is not None and not (case.get('stdin') and len(case['sources']) == 1) and case['sources']: out.append('same-file-named-twice')
     if case.get('wild'): out.append('wild-input')
     if case.get('overinv'): out.append('over-inverted-roles')
     out += ['opt:' + k for k in ('canon', 're', 'de', 'ra', 'ib', 'check', 'triples', 'compact', 'mv') if o.get(k)]
+    if o.get('v'): out.append('opt:' + o['v'])
     if o.get('reconf'): out.append('opt:reconfigure')
     if o.get('rearr'): out.append('opt:rearrange')
     out.append('indent:%s' % o.get('indent'))
@@ -315,6 +336,7 @@ def _opts(draw):
                                        ['attributes-first', 'canonical'], ['inverted-last'], ['alphanumeric', 'inverted-last', 'attributes-first']]))
     o['mv'] = draw(st.sampled_from([None, None, None, '{prefix}{j}', 'a{i}', '{prefix}{i}']))
     o['indent'] = draw(st.sampled_from([None, None, 'no', '-1', '0', '1', '3', '8', 'none', 'False']))
+    o['v'] = draw(st.sampled_from([None, None, None, None, '-v', '-vv', '-vvv', '--verbose']))
     return o
 
 
@@ -367,7 +389,8 @@ def _cases(draw):
         sources = [[{'tree': draw(trees.any_trees(max_nodes=5, unicode=False)), 'meta': {}} for _ in range(draw(st.integers(1, 2)))] for _ in range(nsrc)]
     return {'sources': sources, 'model': spec, 'opts': opts, 'stdin': nsrc == 1 and draw(st.booleans()), 'wild': wild, 'overinv': overinv,
             'crlf': draw(st.integers(0, 3)) == 0, 'in_indent': draw(st.sampled_from([-1, None, 2])), 'alt_indent': draw(st.sampled_from(['no', '0', '4', '-1'])),
-            'subprocess': draw(st.integers(0, 49)) == 0}
+            'subprocess': draw(st.integers(0, 49)) == 0,
+            'dup': [draw(st.integers(0, 2)), draw(st.booleans())] if draw(st.integers(0, 5)) == 0 else None}
 
 
 def _long_chunks(tier):
